@@ -181,7 +181,7 @@ def correspondence(ctx):
               "switch settings; a case (= one message's processing) is non-trivial unless it produced nothing but a plain "
               "reply without any touch; distinct = distinct (sequence of touch kinds since the previous frame, the frame or "
               "outcome that ended it incl. exception class)")
-    n_sessions = ctx.budget(2000, 30000)
+    n_sessions = ctx.budget(1400, 30000)
     lines, impls, meta = [], [], []
     t0 = time.time()
     nmsg = 0
